@@ -98,3 +98,21 @@ func verifH_C15_body_decoders() {
 	}
 	verifReach("end")
 }
+
+//verif:harness id=C15 tier=quick,thorough witness=end bounds="parameter decoders under the footprint monitor: the C10 parameter harness (every legal style cell x 10 schema shapes x any ASCII raw text of 0-3 bytes, error paths included) with the parameter definition and the options shared: decoding and validating a parameter writes nothing shared, whatever the text"
+func verifH_C15_param_decoders() {
+	verifFootprint = true
+	defer func() { verifFootprint = false }()
+	verifH_C10_params()
+}
+
+//verif:harness id=C15 tier=quick,thorough witness=end bounds="deepObject and content-defined parameters under the footprint monitor: the C10 deepObject harness (6 schema shapes x bracket key forms x values, error paths included) and the C10 content-parameter harness"
+func verifH_C15_deepobject_decoders() {
+	verifFootprint = true
+	defer func() { verifFootprint = false }()
+	if verifChoose("which", 2) == 0 {
+		verifH_C10_deepobject()
+	} else {
+		verifH_C10_content_params()
+	}
+}
